@@ -181,6 +181,11 @@ class KeyInj:
             args = H.call_args(x)
             if k == 'MCall' and x.get('m') in VIEWS and len(args) == 1:
                 return self.inj(fn, args[0], keys, scope, slot, nxt)
+            # conversions between owned and borrowed forms of one value, spelled as a path call: String::from(s), ToOwned::to_owned(s), ..
+            d_ = x.get('def') or ''
+            if k == 'Call' and len(args) == 1 and d_.split('::')[-1] in ('from', 'to_owned', 'to_string', 'into', 'clone', 'as_ref') and \
+                    d_.startswith(('std::convert::From', 'std::convert::Into', 'std::borrow::ToOwned', 'std::string::ToString', 'std::clone::Clone', 'std::convert::AsRef', 'std::string::String')):
+                return self.inj(fn, args[0], keys, scope, slot, nxt)
             row = self.row_for(x)
             if row is not None:
                 i = row['arg']
